@@ -5,6 +5,13 @@ Open Scope Z_scope.
 Definition req_ok (w : world) (r : Z) : Prop :=
   r <= completed_n (w_trials w) + c_par (w_cfg w) /\ forall e m, w_exp w = Some e -> e_max e = Some m -> r <= m.
 
+(* the status counters are those of its class list, which is no longer than the trial list *)
+Definition status_ok (w : world) (st : estatus) : Prop :=
+  status_wf st /\ (length (es_classes st) <= length (w_trials w))%nat.
+
+Lemma status_ok_nonneg w st : status_ok w st -> counts_nonneg (es_counts st).
+Proof. intros [W _]. rewrite W. apply counts_of_nonneg. Qed.
+
 (* what justifies a pending write, relative to the current store *)
 Definition write_ok (w : world) (x : write * onfail) : Prop :=
   match fst x with
@@ -19,7 +26,7 @@ Definition write_ok (w : world) (x : write * onfail) : Prop :=
                 (rv = t_rv t -> (forall k, In k terminal_types -> t_is t k = true -> has_cond cs k = true) /\
                                 (tgood t -> good_conds cs o))
   | WExpStatus st rv =>
-      counts_nonneg (es_counts st) /\
+      status_ok w st /\
       exists e, w_exp w = Some e /\ (rv <= e_rv e)%nat /\
                 (rv = e_rv e -> e_completed (e_st e) = true -> restart_enabled_e (w_cfg w) e = false -> verdict_same (e_st e) st)
   | _ => True
@@ -28,7 +35,7 @@ Definition write_ok (w : world) (x : write * onfail) : Prop :=
 Record InvS (w : world) : Prop := {
   i_par : 0 <= c_par (w_cfg w);
   i_exp : exists e ce, w_exp w = Some e /\ c_exp w = Some ce /\ ele ce e /\ e_deleting e = false /\ e_deleting ce = false /\
-          counts_nonneg (es_counts (e_st e)) /\ counts_nonneg (es_counts (e_st ce));
+          status_ok w (e_st e) /\ status_ok w (e_st ce);
   i_nodup : NoDup (names (w_trials w));
   i_del : Forall (fun t => t_deleting t = false) (w_trials w);
   i_cdel : Forall (fun t => t_deleting t = false) (c_trials w);
@@ -126,7 +133,7 @@ Lemma write_ok_mono w w' x : evolves w w' -> write_ok w x -> write_ok w' x.
 Proof.
   intros E. unfold write_ok. destruct (fst x); auto.
   - (* WExpStatus *)
-    intros (NN&e&He&R&P). split; [exact NN|].
+    intros (NN&e&He&R&P). split; [destruct NN as [N1 N2]; split; [exact N1|pose proof (tlag_length _ _ (ev_trials _ _ E)); lia]|].
     destruct (ev_exp_fwd _ _ E _ He) as (e'&He'&(R'&E'&_)). exists e'. split; [exact He'|]. split; [lia|].
     intro Q. assert (Q1 : rv = e_rv e) by lia. assert (Q2 : e_rv e = e_rv e') by lia.
     rewrite <- (E' Q2), (ev_cfg _ _ E). auto.
